@@ -70,6 +70,16 @@ Theorem C05_exit_enabled_retry : forall d fired, (0 < d)%Z ->
 Proof. exact retry_wait_ctx. Qed.
 Print Assumptions C05_exit_enabled_retry.
 
+(** the same for every cancellable context, with or without a deadline: whenever WaitOrSkipRetry decides to wait (no
+    deadline, or a deadline later than the end of the back-off) the wait it performs is the select over ctx.Done() and
+    the timer; once the context is done the context's error is an outcome, and the only one while the timer has not fired *)
+Theorem C05_exit_enabled_retry_any_ctx : forall delay has_dl until fired,
+  (0 < delay)%Z -> has_dl = false \/ (delay < until)%Z ->
+  exists outs, wait_or_skip delay has_dl until true true fired = (true, Some outs) /\ In WCtxErr outs /\
+               (fired = false -> outs = [WCtxErr]).
+Proof. exact retry_wait_any_ctx. Qed.
+Print Assumptions C05_exit_enabled_retry_any_ctx.
+
 (** WaitOrSkipRetry never starts a back-off that would outlast the context's deadline *)
 Theorem C05_retry_skips_when_deadline_sooner : forall delay until c d f,
   (0 < delay)%Z -> (until <= delay)%Z -> wait_or_skip delay true until c d f = (false, None).
